@@ -705,8 +705,8 @@ func writeChunkedSegment(ctx context.Context, log *slog.Logger, w http.ResponseW
 	// That fragment/chunk duration is segment_duration-availabilityTimeOffset.
 	chunkDur := (a.SegmentDurMS - int(cfg.AvailabilityTimeOffsetS*1000)) * int(rep.MediaTimescale) / 1000
 	if chunkDur <= 0 {
-		return fmt.Errorf("availabilityTimeOffset %.3fs leaves no chunk duration for %dms segments",
-			cfg.AvailabilityTimeOffsetS, a.SegmentDurMS)
+		return badConfigError{fmt.Sprintf("availabilityTimeOffset %.3fs leaves no chunk duration for %dms segments",
+			cfg.AvailabilityTimeOffsetS, a.SegmentDurMS)}
 	}
 	chunks, err := chunkSegment(rep.initSeg, seg, so.meta, chunkDur)
 	if err != nil {
